@@ -280,6 +280,14 @@ impl SortableStrVec {
         if offset > (CompactEntry::MAX_OFFSET >> 1) && offset + length > CompactEntry::MAX_OFFSET {
             return Err(ZiporaError::out_of_memory(offset + length));
         }
+        // The entry keeps the length in 20 bits: a longer string cannot be represented
+        if length > CompactEntry::MAX_LENGTH {
+            return Err(ZiporaError::invalid_data(format!(
+                "String length {} exceeds the maximum of {} bytes",
+                length,
+                CompactEntry::MAX_LENGTH
+            )));
+        }
 
         // Simplified sequence ID (faster than atomic ops for each string)
         let seq_id = (self.entries.len() & 0xF) as u8;
